@@ -289,7 +289,8 @@ def ecef2geodetic(x: float, y: float, z: float, a: float = EARTH_EQUATOR_RADIUS,
         N = a / np.sqrt(1 - e2 * sin_lat**2)    # Radius of curvature in the vertical prime
         lat_old = lat
         lat = np.arctan2(z + e2 * N * sin_lat, p)
-    h = p / np.cos(lat) - N
+    sin_lat = np.sin(lat)
+    h = p*np.cos(lat) + z*sin_lat - a*np.sqrt(1 - e2*sin_lat**2)
     # Convert to degrees
     lat *= RAD2DEG
     lon *= RAD2DEG
